@@ -147,6 +147,12 @@ func vfGenPolicyTree(g *vfG, kindName string, i int) map[string]interface{} {
 		if v, ok := tree["maxAttempts"].(int); ok && v > 4 {
 			tree["maxAttempts"] = 4 // exponential back-off over many attempts is a cost issue only
 		}
+		if g.chance("resilience[].waitDuration", "non-positive", 1) {
+			// explicit zero / negative waits (500 ms per failed attempt in the code under test): rare, one attempt
+			tree["waitDuration"] = g.pick("resilience[].waitDuration", "np", "-1s", "0s", "-20ms")
+			tree["maxAttempts"] = 1
+			g.bounds["waitduration:"+vfRetryWaitClass(tree)] = true
+		}
 	case "CircuitBreaker":
 		tree["name"] = g.pick("resilience[].name", "cb-name", "cb1", "cb2")
 		// window sizes are lengths of allocated slices: keep them small
@@ -162,7 +168,52 @@ func vfGenPolicyTree(g *vfG, kindName string, i int) map[string]interface{} {
 	return tree
 }
 
+// vfRetryWaitClass classifies the waitDuration of a generated Retry policy tree: the known
+// finding (rand.Intn overflow) is only the class "overflow"; every other class that panics in the
+// retry wrapper is a different defect and gets a different key.
+func vfRetryWaitClass(tree map[string]interface{}) string {
+	s, ok := tree["waitDuration"].(string)
+	if !ok || s == "" {
+		return "default"
+	}
+	d, err := time.ParseDuration(s)
+	switch {
+	case err != nil:
+		return "unparsable"
+	case d < 0:
+		return "negative"
+	case d == 0:
+		return "zero"
+	case d >= 100000*time.Hour:
+		return "overflow" // int(2*d*factor+1) exceeds the int64 range for factor >= 0.5 (d is ~292 years)
+	}
+	return "small"
+}
+
+// vfRetryCause is the key suffix for panics inside the retry wrapper.
+func vfRetryCause(policies []interface{}) string {
+	classes := map[string]bool{}
+	for _, p := range policies {
+		if pm, ok := p.(map[string]interface{}); ok && pm["kind"] == "Retry" {
+			classes[vfRetryWaitClass(pm)] = true
+		}
+	}
+	var l []string
+	for _, c := range []string{"overflow", "negative", "zero", "default", "unparsable", "small"} {
+		if classes[c] {
+			l = append(l, c)
+		}
+	}
+	return " cause=waitDuration-" + strings.Join(l, "+")
+}
+
+const vfRetrySite = "resilience.(*RetryPolicy).Wrap.func1"
+
+type vfNSNode struct{ Kind, NS string }
+
 type vfPipeInfo struct {
+	NSNodes  []vfNSNode    // flow nodes that run in a non-default namespace
+	Policies []interface{} // the resilience section
 	Kinds       []string // kind of filter i
 	Names       []string
 	MQTT        bool
@@ -226,6 +277,44 @@ func vfGenPipelineBody(g *vfG, prefix string, maxFilters int, allowMQTT bool) (m
 		rs := vfGenResilience(g)
 		body["resilience"] = rs
 		g.present[prefix+"resilience"] = true
+	}
+	// policy names defined more than once (same kind twice, or once per kind: Pipeline.reload keeps
+	// the last definition of a name), with a Proxy pool referring to the name
+	hasProxy := false
+	for _, k := range info.Kinds {
+		hasProxy = hasProxy || k == "Proxy"
+	}
+	if hasProxy && g.chance(prefix+"resilience", "duplicate-names", 14) {
+		rs, _ := body["resilience"].([]interface{})
+		first := g.pick(prefix+"resilience", "dup-first", "Retry", "CircuitBreaker")
+		second := g.pick(prefix+"resilience", "dup-second", "Retry", "CircuitBreaker")
+		for _, k := range []string{first, second} {
+			pt := vfGenPolicyTree(g, k, 0)
+			pt["name"] = "shared"
+			rs = append(rs, pt)
+		}
+		body["resilience"] = rs
+		g.present[prefix+"resilience"] = true
+		if first == second {
+			g.bounds["resilience:same-name-twice-same-kind"] = true
+		} else {
+			g.bounds["resilience:same-name-for-both-kinds"] = true
+		}
+		field := g.pick(prefix+"resilience", "dup-ref", "retryPolicy", "circuitBreakerPolicy")
+		for _, f := range fs {
+			fm, _ := f.(map[string]interface{})
+			if fm == nil || fm["kind"] != "Proxy" {
+				continue
+			}
+			if pools, _ := fm["pools"].([]interface{}); len(pools) > 0 {
+				if pm, ok := pools[g.intn(prefix+"resilience", "dup-pool", 0, len(pools)-1)].(map[string]interface{}); ok {
+					pm[field] = "shared"
+				}
+			}
+		}
+	}
+	if rs, ok := body["resilience"].([]interface{}); ok {
+		info.Policies = rs
 		for _, r := range rs {
 			if rm, ok := r.(map[string]interface{}); ok {
 				info.PolicyNames = append(info.PolicyNames, fmt.Sprint(rm["name"]))
@@ -285,14 +374,17 @@ func vfGenPipelineBody(g *vfG, prefix string, maxFilters int, allowMQTT bool) (m
 				builderNS[ns] = true
 				m["namespace"] = ns
 				info.UsesNS = true
+				info.NSNodes = append(info.NSNodes, vfNSNode{Kind: kn, NS: ns})
 				g.present[prefix+"flow[].namespace"] = true
 			} else if ns != "" && g.chance(prefix+"flow[].namespace", "use", 50) {
 				m["namespace"] = ns
 				info.UsesNS = true
+				info.NSNodes = append(info.NSNodes, vfNSNode{Kind: kn, NS: ns})
 			} else if g.chance(prefix+"flow[].namespace", "dangling", 3) {
 				m["namespace"] = "nsX"
 				info.DanglingNS = true
 				info.UsesNS = true
+				info.NSNodes = append(info.NSNodes, vfNSNode{Kind: kn, NS: "nsX"})
 				g.bounds["namespace:without-request"] = true
 			} else if g.chance(prefix+"flow[].namespace", "explicit-default", 5) {
 				m["namespace"] = "DEFAULT"
@@ -339,6 +431,7 @@ type vfRunner struct {
 	rt   *rapid.T
 	env  *vfEnvT
 	yaml string
+	ctx  *context.Context // context of the request being handled when a panic is reported
 }
 
 // fail reports a panic; returns true when the case must be abandoned.
@@ -352,12 +445,22 @@ func (r *vfRunner) fail(defaultKind, phase, text, site, filterKind, extra string
 		return true // no Kafka broker in the sandbox: environment, not a violation
 	}
 	key := vfKey2(kind, site, text)
+	if site == vfRetrySite && info != nil {
+		key += vfRetryCause(info.Policies)
+	}
 	// A filter that runs in a non-default namespace finds no request there when nobody put one in
 	// (no RequestBuilder before it, a RequestBuilder in sourceNamespace mode with nothing to copy, or
 	// a jump over the builder): one input class, whatever filter kind happens to trip over it.
-	if info != nil && info.UsesNS && phase == "Handle" &&
+	// It is attributed only when the context of the failing request shows it: a flow node of the
+	// panicking filter's kind runs in a non-default namespace that holds no request.
+	if info != nil && phase == "Handle" && r.ctx != nil &&
 		(strings.Contains(text, "protocols.Request is nil") || (strings.Contains(text, "nil pointer") && strings.HasSuffix(site, ".Handle"))) {
-		key = "flow-node-namespace-without-request panic=" + vfClass(text)
+		for _, n := range info.NSNodes {
+			if n.Kind == kind && r.ctx.GetRequest(n.NS) == nil {
+				key = "flow-node-namespace-without-request panic=" + vfClass(text)
+				break
+			}
+		}
 	}
 	return vfReport(r.vf, r.rt, key, fmt.Sprintf("%s panicked during %s: %s\naccepted spec:\n%s%s", kind, phase, text, r.yaml, extra))
 }
@@ -467,6 +570,7 @@ func TestVerifC13Pipeline(t *testing.T) {
 				continue
 			}
 			var res string
+			r.ctx = ctx
 			if pn, txt, site, fk := vfRecoverRoot(func() { res = cur.Handle(ctx) }); pn {
 				vf.Case(len(g.present) > 0, "handle|"+dk+"|"+rq.Class(), nil)
 				r.fail("Pipeline", "Handle", txt, site, fk, "\nrequest #"+fmt.Sprint(i)+": "+rq.String(), &info)
@@ -551,6 +655,10 @@ func TestVerifC13GlobalFilter(t *testing.T) {
 			usesNS = usesNS || i.UsesNS
 		}
 		info := vfPipeInfo{DanglingNS: dangling, UsesNS: usesNS}
+		for _, i := range infos {
+			info.NSNodes = append(info.NSNodes, i.NSNodes...)
+			info.Policies = append(info.Policies, i.Policies...)
+		}
 		gf := obj.(*globalfilter.GlobalFilter)
 		dk := "globalfilter|" + strings.Join(g.Present(), ",") + "|" + strings.Join(g.Bounds(), ",")
 		if pn, txt, site, fk := vfRecoverRoot(func() { gf.Init(spec) }); pn {
@@ -578,6 +686,7 @@ func TestVerifC13GlobalFilter(t *testing.T) {
 			if !ok {
 				continue
 			}
+			r.ctx = ctx
 			if pn, txt, site, fk := vfRecoverRoot(func() { gf.Handle(ctx, main) }); pn {
 				vf.Case(len(g.present) > 0, "handle|"+dk+"|"+rq.Class(), nil)
 				r.fail("GlobalFilter", "Handle", txt, site, fk, "\nrequest: "+rq.String(), &info)
@@ -624,12 +733,19 @@ func TestVerifC13Resilience(t *testing.T) {
 		kindName := g.pick("policy", "kind", "Retry", "CircuitBreaker")
 		tree := vfGenPolicyTree(g, kindName, 0)
 		hugeWait := false
-		if kindName == "Retry" && g.chance("waitDuration", "huge", 8) {
-			// the largest duration Go can parse; every call of this case runs with a context that is
-			// already cancelled (client gone), so the wrapper can never actually sleep that long
-			tree["waitDuration"] = "2562047h"
+		if kindName == "Retry" && g.chance("waitDuration", "long-or-non-positive", 30) {
+			// Waits the harness cannot afford to sleep: the largest duration Go can parse, and zero /
+			// negative / absent durations (500 ms per failed attempt in the code under test). Every call
+			// of such a case runs with a context that is already cancelled (the client is gone), so the
+			// wrapper computes its wait but returns instead of sleeping.
+			switch w := g.pick("waitDuration", "class", "2562047h", "-1s", "0s", "-20ms", "absent", "-1ns"); w {
+			case "absent":
+				delete(tree, "waitDuration")
+			default:
+				tree["waitDuration"] = w
+			}
 			hugeWait = true
-			g.bounds["waitduration:max-duration"] = true
+			g.bounds["waitduration:"+vfRetryWaitClass(tree)] = true
 		}
 		text := vfToYAML(tree)
 		pol, err := resilience.NewPolicy(vfFromYAML(text))
@@ -677,7 +793,7 @@ func TestVerifC13Resilience(t *testing.T) {
 			hist = append(hist, fmt.Sprintf("%v cancelled=%v -> attempts=%d err=%v", script, cancelled, attempt, err))
 			if pn {
 				vf.Case(len(g.present) > 0, "call|"+dk, nil)
-				r.fail(kindName, "a wrapped call", txt, site, "", "\ncall history: "+strings.Join(hist, " ; "), nil)
+				r.fail(kindName, "a wrapped call", txt, site, "", "\ncall history: "+strings.Join(hist, " ; "), &vfPipeInfo{Policies: []interface{}{tree}})
 				return
 			}
 		}
